@@ -89,7 +89,7 @@ def parseOp (ks : Bytes) : Option Op :=
 
 /-- the target of a motion used by an operator: (kind, row, col) with col possibly the newline position;
 `none` = not judged, `some none` = the motion fails -/
-def opTarget (b : Buf) (row col : Nat) (xtop xrows : Int) (mv : Nat) (arg : Option Nat) (n : Nat) (has : Bool) : Option (Option (Kind × Nat × Nat)) :=
+def opTarget (b : Buf) (row col : Nat) (xtop xrows : Int) (mv : Nat) (arg : Option Nat) (n : Nat) (has : Bool) (charlast : Option (Nat × Nat) := none) : Option (Option (Kind × Nat × Nat)) :=
   let l := b.getD row []
   let nb (r : Nat) : Nat := let l := b.getD r []; match (List.range l.length).find? (fun k => !isBlank (l.getD k 0)) with | some k => k | none => lastCol l
   let ln (r : Int) : Option (Option (Kind × Nat × Nat)) := some (some (Kind.line, clampRow b r, 0))
@@ -111,6 +111,13 @@ def opTarget (b : Buf) (row col : Nat) (xtop xrows : Int) (mv : Nat) (arg : Opti
     match arg with
     | none => none
     | some ch => some ((findChar l col ch false (mv == 84) n).map (fun k => (Kind.excl, row, k)))
+  else if mv == 59 || mv == 44 then
+    -- the last find repeated, in its own direction (;) or reversed (,): inclusive when it goes forward
+    match charlast with
+    | none => some none
+    | some (cmd, ch) =>
+      let fwd := (cmd == 102 || cmd == 116) == (mv == 59)
+      some ((findChar l col ch fwd (cmd == 116 || cmd == 84) n).map (fun k => (if fwd then Kind.incl else Kind.excl, row, k)))
   else if mv == 106 || mv == 43 || mv == 10 then ln ((row : Int) + n)
   else if mv == 107 || mv == 45 then ln ((row : Int) - n)
   else if mv == 95 then ln ((row : Int) + n - 1)
@@ -152,7 +159,7 @@ def nbOf (b : Buf) (r : Nat) : Nat :=
 def toggleCase (c : Nat) : Nat := if 97 ≤ c && c ≤ 122 then c - 32 else if 65 ≤ c && c ≤ 90 then c + 32 else c
 
 /-- what the reference expects after the command (`none` = no judgement) -/
-def expect08 (b : Buf) (regs : RegMap) (row col : Nat) (xtop xrows : Int) (o : Op) : Option Exp :=
+def expect08 (b : Buf) (regs : RegMap) (row col : Nat) (xtop xrows : Int) (o : Op) (charlast : Option (Nat × Nat) := none) : Option Exp :=
   let n1 := o.cnt1.getD 1; let n1 := if n1 == 0 then 1 else n1
   let l := b.getD row []
   let same : Exp := { text := some b, cur := some (row, col), regs := some regs }
@@ -169,7 +176,7 @@ def expect08 (b : Buf) (regs : RegMap) (row col : Nat) (xtop xrows : Int) (o : O
   if cmd == 100 || cmd == 121 then
     let tgt : Option (Option (Kind × Nat × Nat)) :=
       if dbl then some (some (Kind.line, clampRow b ((row : Int) + n - 1), 0))
-      else opTarget b row col xtop xrows mv arg n has
+      else opTarget b row col xtop xrows mv arg n has charlast
     match tgt with
     | none => none
     | some none => some same
@@ -257,16 +264,31 @@ def expect08 (b : Buf) (regs : RegMap) (row col : Nat) (xtop xrows : Int) (o : O
 structure J08 where
   errs : List String := []
   judged : Nat := 0
+  charlast : Option (Nat × Nat) := none     -- the last f F t T (command, code point), whoever used it
 
 def showBuf (b : Buf) : String := bytesHex (Spec.encStr (joinLines b))
 
-def judge08Step (j : J08) (a b : Bd) (ks : Bytes) (xrows : Int) : J08 :=
+/-- the find a command segment contains (as a plain motion or under an operator) -/
+def findOf (ks : Bytes) : Option (Nat × Nat) :=
+  match parseOp ks with
+  | some o => if o.mv == 102 || o.mv == 70 || o.mv == 116 || o.mv == 84 then o.arg.map (fun ch => (o.mv, ch)) else none
+  | none =>
+    match ViSpec.parseCmd ks with
+    | some c => if c.mv == 102 || c.mv == 70 || c.mv == 116 || c.mv == 84 then c.arg.map (fun ch => (c.mv, ch)) else none
+    | none => none
+
+def judge08Step (j0 : J08) (a b : Bd) (ks : Bytes) (xrows : Int) : J08 :=
+  -- remember the find for later ; and , (an unparsable segment with f F t T in it makes it unknown: judged as failing → skip)
+  let j := match findOf ks with
+    | some f => { j0 with charlast := some f }
+    | none => if ks.any (fun c => c == 102 || c == 70 || c == 116 || c == 84) && (parseOp ks).isNone && (ViSpec.parseCmd ks).isNone then { j0 with charlast := none } else j0
   match parseOp ks with
   | none => j
   | some o =>
+    if (o.mv == 59 || o.mv == 44) && j0.charlast.isNone then j else
     let buf := bufOf a.text
     let regs := parseRegs a.regs
-    match expect08 buf regs a.xrow.toNat a.xoff.toNat a.xtop xrows o with
+    match expect08 buf regs a.xrow.toNat a.xoff.toNat a.xtop xrows o j0.charlast with
     | none => j
     | some e =>
       let gotB := bufOf b.text
@@ -282,7 +304,7 @@ def judge08Step (j : J08) (a b : Bd) (ks : Bytes) (xrows : Int) : J08 :=
         | some r => if regsView r == regsView (parseRegs b.regs) then errs else
             errs ++ [s!"clause=registers_hold_the_span keys={bytesHex ks} from={a.xrow},{a.xoff} before={bytesHex a.text} regs-before={a.regs} got={b.regs}"]
         | none => errs
-      { errs := errs, judged := j.judged + 1 }
+      { j with errs := errs, judged := j.judged + 1 }
 
 def judge08 (c : Case) : List String × Nat :=
   let bs := c.impl.filter (·.mark == "B")
